@@ -366,6 +366,9 @@ class Tree(productmd.common.MetadataBase):
             if i != self.arch and i.endswith("-%s" % self.arch):
                 i = i[:-len(self.arch)-1]
             self.platforms.add(i)
+        # the compatibility section written by productmd lists the platforms
+        if parser.has_option("general", "platforms"):
+            self.platforms.update([i for i in parser.get("general", "platforms").split(",") if i])
 
         if parser.has_option("general", "timestamp"):
             self.build_timestamp = _parse_timestamp(parser.get("general", "timestamp"))
